@@ -69,7 +69,7 @@ func (m c07) Run(ctx *core.Ctx) {
 			m.Exec(ctx, cs)
 		}
 	}
-	n := split(tierN(ctx.Tier, 400_000, 12_000_000), ctx.Shard, ctx.NShards)
+	n := split(tierN(ctx.Tier, 1_000_000, 12_000_000), ctx.Shard, ctx.NShards)
 	r := ctx.Rng
 	for i := int64(0); i < n; i++ {
 		var h string
